@@ -160,9 +160,9 @@ def runOps {σ} (step : σ → Op → σ × Option WOut) : σ → List Op → σ
     let rest := runOps step r.1 os
     (rest.1, (match r.2 with | some w => [w] | none => []) ++ rest.2)
 
-/-- the program without the middleware -/
-def runPlain (sn : Sniff) (ops : List Op) : Base × List WOut :=
-  let r := runOps (plainStep sn) {} ops
+/-- the program without the middleware; `h0` = the headers an outer middleware set before the chain reached this point -/
+def runPlain (sn : Sniff) (h0 : Hdrs) (ops : List Op) : Base × List WOut :=
+  let r := runOps (plainStep sn) { live := h0 } ops
   (r.1.finish sn, r.2)
 
 end Rivaas.Http
